@@ -26,8 +26,10 @@ MANIFEST_ENTRY = {
           "result -- same instructions, metadata, jump table, entry; with it C05_full_builder and C05_operands_meta_builder "
           "state the inductive theorems directly for BuilderWL.build. What remains bounded: nothing about code shape; not "
           "proved are the converse direction (the tree compiler succeeds => the worklist model succeeds within build_fuel; "
-          "only error-class and termination statements need it) and that validate_tree implies tree_of (the trees the parser "
-          "model produces satisfy tree_of on every input the run and the bounded theorems see). On every run the worklist model, the tree compiler and the real "
+          "only error-class and termination statements need it). The hypothesis is discharged for everything the parser model "
+          "accepts: C05_validate_tree_of (the parser's final check validate_tree accepts only proper trees) and C05_parse_tree_of "
+          "(parse returns the empty program or a proper tree), hence compile_agrees_parsed / C05_full_parsed for EVERY accepted token "
+          "sequence, no bound. On every run the worklist model, the tree compiler and the real "
           "build() are diffed instruction-for-instruction on all token triples, a fixed corpus, grammar-generated programs and "
           "programs built after another program, on both data implementations, and the checker is evaluated natively on every "
           "real instruction stream and must agree with the extracted Coq checker.",
